@@ -270,6 +270,8 @@ enum RunRes {
     Hang(u64),
     AllocViolation(u64, u64, String),
     Crash(String),
+    /// the worker was killed at the per-chunk wall cap: a budget, not a verdict
+    WallCap(String),
     HarnessPanic(String),
 }
 
@@ -327,7 +329,7 @@ fn run_worker(prop: &str, tier: Tier, job: &Job, scratch: &Path, tag: &str, wall
     let err = String::from_utf8_lossy(&errbuf.lock().unwrap()).to_string();
     let status = match status {
         Some(s) => s,
-        None => return RunRes::Crash(format!("worker exceeded wall cap {:?}; stderr: {}", wall_cap, tail(&err))),
+        None => return RunRes::WallCap(format!("worker exceeded the wall cap of {:?}", wall_cap)),
     };
     if let Some(pos) = err.find("ALLOC-VIOLATION") {
         let line = err[pos..].lines().next().unwrap_or("").to_string();
@@ -424,6 +426,10 @@ fn merge_ok(m: &mut Merged, space: usize, v: &Value, dig: Vec<u64>) {
                 continue;
             }
             if k.ends_with("_what") {
+                continue;
+            }
+            if k.starts_with("capped_") {
+                m.capped.push(format!("{}: {}", k, val.as_str().unwrap_or("")));
                 continue;
             }
             if k.starts_with("secs_") || k.starts_with("states_") {
@@ -527,6 +533,10 @@ fn process_job(
                 "harness failure in space {} [{}, {}): {}",
                 job.space, job.a, job.b, msg
             ));
+        }
+        RunRes::WallCap(msg) => {
+            let mut m = merged.lock().unwrap();
+            m.capped.push(format!("space {} cases [{}, {}) not explored: {}", job.space, job.a, job.b, msg));
         }
         RunRes::Crash(msg) => {
             if job.b - job.a <= 1 {
@@ -659,6 +669,7 @@ pub fn controller_main(def: &CheckDef, tier: Tier) -> i32 {
             RunRes::Hang(_) => v.key.starts_with("hang:"),
             RunRes::AllocViolation(..) => v.key.starts_with("oversize-alloc:"),
             RunRes::Crash(_) => v.key.starts_with("abort:"),
+            RunRes::WallCap(_) => false,
             RunRes::HarnessPanic(_) => false,
         };
         if !reproduced {
